@@ -127,6 +127,8 @@ def arg_pool(rng, kind):
             calls.append(t)
             conds.append(t)
     calls.append(vtok([rng.below(3) for _ in range(fixed)]))          # no variadic values at all
+    if fixed >= 1 and rng.chance(1, 2):
+        conds.append(calls[-1])                                       # a condition that leaves the variadic slot empty (checkParams 0343a50)
     calls.append(vtok([rng.below(3) for _ in range(fixed + 1 + rng.below(3))]))
     return calls, conds
 
@@ -374,9 +376,11 @@ def gen_malformed(rng):
                        'c05.serve 1 2 3', 'c05.seq if mR:1 ::', 'c05.seq f9 mR:1 C:1'])
 
 
-def gen_conc(tier, rng, count):
+def gen_conc(tier, rng, count, race=False):
     ops = []
     gs = [2, 2, 3, 4, 6, 8, 12, 16, 16, 24, 32]
+    if race and tier == 'quick':
+        gs = [2, 3, 4, 6, 8]   # the race detector slows every atomic ~10x: wide barriers belong to the thorough tier
     for _ in range(count):
         G = rng.choice(gs)
         K = rng.choice([1, 2, 3, 4, 8, 16] + ([64] if tier == 'thorough' else []))
@@ -727,7 +731,7 @@ def serve_oracle(ops, impl):
 
 def sizes(tier):
     if tier == 'quick':
-        return {'spec': 2000, 'free': 1500, 'mal': 20, 'conc': 800, 'conc_race': 120, 'seq_race': 150}
+        return {'spec': 2000, 'free': 1500, 'mal': 20, 'conc': 500, 'conc_race': 40, 'seq_race': 100}
     return {'spec': 20000, 'free': 20000, 'mal': 60, 'conc': 10000, 'conc_race': 1000, 'seq_race': 1500}
 
 
@@ -779,7 +783,7 @@ def explore(tier, rng, exe, bins, scale=1, tag='c05'):
     # the same probes under the race detector
     r['race'] = None
     if bins.get('race'):
-        rops = gen_conc(tier, rng, sz['conc_race'])
+        rops = gen_conc(tier, rng, sz['conc_race'], race=True)
         rc, log, rimpl, _ = run_lines(bins['race'], 'TestVerifC05Conc', rops, tag + '.rconc')
         rel, other = race_reports(log)
         rr = validate_conc(exe, rops, rimpl, tag + '.rconc')
